@@ -42,25 +42,31 @@ Proof. induction l as [|x r IH]; simpl; [discriminate|]. destruct (String.eqb (p
 Lemma find_alias_app_none n l l' : find_alias n l = None -> find_alias n (l ++ l') = find_alias n l'.
 Proof. induction l as [|x r IH]; simpl; auto. destruct (String.eqb (pa_name x) n); [discriminate|auto]. Qed.
 
-Lemma zlookup_app_some n l l' v : zlookup n l = Some v -> zlookup n (l ++ l') = Some v.
+Lemma clookup_app_some n l l' v : clookup n l = Some v -> clookup n (l ++ l') = Some v.
 Proof. induction l as [|[k x] r IH]; simpl; [discriminate|]. destruct (String.eqb k n); auto. Qed.
 
 Lemma ceval_mono cs cs' e v : ceval cs e = Some v -> ceval (cs ++ cs') e = Some v.
 Proof.
-  revert v. induction e as [n|c|a IHa b IHb|a IHa b IHb|a IHa b IHb]; simpl; intros v H; auto.
-  - apply zlookup_app_some. exact H.
+  revert v. induction e as [n|c|a IHa b IHb|a IHa b IHb|a IHa b IHb|a IHa d]; simpl; intros v H; auto.
+  - apply clookup_app_some. exact H.
   - destruct (ceval cs a) as [x|]; [|discriminate]. destruct (ceval cs b) as [y|]; [|discriminate].
     rewrite (IHa _ eq_refl), (IHb _ eq_refl). exact H.
   - destruct (ceval cs a) as [x|]; [|discriminate]. destruct (ceval cs b) as [y|]; [|discriminate].
     rewrite (IHa _ eq_refl), (IHb _ eq_refl). exact H.
   - destruct (ceval cs a) as [x|]; [|discriminate]. destruct (ceval cs b) as [y|]; [|discriminate].
     rewrite (IHa _ eq_refl), (IHb _ eq_refl). exact H.
+  - destruct (ceval cs a) as [x|]; [|discriminate]. rewrite (IHa _ eq_refl). exact H.
+Qed.
+
+Lemma leval_mono cs cs' e v : leval cs e = Some v -> leval (cs ++ cs') e = Some v.
+Proof.
+  unfold leval. destruct (ceval cs e) as [x|] eqn:E; [|discriminate]. rewrite (ceval_mono _ cs' _ _ E). auto.
 Qed.
 
 (* ------------------------------------------------------------------ resolution under extension *)
 Section Ext.
-  Variables (cs cs' : list (string * Z)) (al al' : list palias) (ss ss' ms ms' : list pdef).
-  Hypothesis Hc : forall e v, ceval cs e = Some v -> ceval cs' e = Some v.
+  Variables (cs cs' : list (string * cval)) (al al' : list palias) (ss ss' ms ms' : list pdef).
+  Hypothesis Hc : forall e v, leval cs e = Some v -> leval cs' e = Some v.
   Hypothesis Ht : forall t r, resolve_ftype al ss ms t = POk r -> resolve_ftype al' ss' ms' t = POk r.
   Hypothesis Hr : forall n ps, resolve_body cs al ss ms (BReuse n) = POk ps -> resolve_body cs' al' ss' ms' (BReuse n) = POk ps.
 
@@ -69,7 +75,7 @@ Section Ext.
     unfold resolve_field. destruct (existsb (String.eqb (fd_name d)) reserved_field_names); [discriminate|].
     destruct (resolve_ftype al ss ms (fd_type d)) as [[[k sz] a]|k|k] eqn:E; try discriminate.
     rewrite (Ht _ _ E). destruct (fd_len d) as [e|]; auto.
-    destruct (ceval cs e) as [v|] eqn:Ev; [|discriminate]. rewrite (Hc _ _ Ev). auto.
+    destruct (leval cs e) as [v|] eqn:Ev; [|discriminate]. rewrite (Hc _ _ Ev). auto.
   Qed.
 
   Lemma resolve_fields_ext l ps : resolve_fields cs al ss ms l = POk ps -> resolve_fields cs' al' ss' ms' l = POk ps.
@@ -269,7 +275,7 @@ Proof.
                           (ps_structs (apply_delta st dy)) (ps_msgs (apply_delta st dy)) b = POk ps).
   { intros b ps _ Hb. rewrite msgs_apply by lia. revert Hb. apply resolve_body_ext.
     - (* constants *)
-      intros e v He. destruct dy; simpl; auto. apply ceval_mono. exact He.
+      intros e v He. destruct dy; simpl; auto. apply leval_mono. exact He.
     - (* field types *)
       intros t r Ht. destruct dy as [c|s|a|h|m|d|ids ds]; simpl in *; auto; try lia.
       + (* one more alias *)
